@@ -3,6 +3,7 @@ C10 — A1-notation conversion functions are mutually inverse bijections.
 Statements only (plus short proofs by reference to Lemmas/A1.lean) and non-vacuity examples.
 -/
 import NumbersModel.Lemmas.A1
+import NumbersModel.Lemmas.TrA1
 import NumbersModel.Gen.Constants
 namespace NumbersModel.Props.C10
 open NumbersModel NumbersModel.A1
@@ -310,3 +311,81 @@ theorem cell_roundtrip_gen (r c : Nat) (ra ca : Bool) (hc : c ≤ 18277) :
   cell_roundtrip _ zeros_ok r c ra ca hc
 
 end NumbersModel.Props.C10
+
+/-! ## The same statements over the definitions regenerated from the Python source
+
+`Gen/TrA1.lean` is produced by `harness/py2lean.py` from `xrefs.py` as it is in the working tree on every
+check run; `Lemmas/TrA1.lean` proves each translated function equal to the model function used above.
+The theorems below are therefore statements about (the translation of) the code itself: if the source of
+`xl_col_to_name`, `xl_rowcol_to_cell`, `xl_range`, `xl_cell_to_rowcol` or `xl_col_to_offset` changes, these
+are re-proved against the new text or stop compiling. -/
+namespace NumbersModel.Props.C10.Src
+open NumbersModel NumbersModel.A1 NumbersModel.Gen.T NumbersModel.Translated
+
+/-- row/column → A1 → row/column is the identity, every `$` combination, every column Numbers can have. -/
+theorem src_cell_roundtrip (r c : Nat) (ra ca : Bool) (hc : c ≤ 18277) :
+    (xl_rowcol_to_cell r c ra ca).bind xl_cell_to_rowcol = .ok ((r : Int), (c : Int)) := by
+  have h : xl_cell_to_rowcol = cellToRowCol Gen.digitZeros := funext xl_cell_to_rowcol_eq_model
+  rw [xl_rowcol_to_cell_eq_model, h]
+  exact cell_roundtrip_gen r c ra ca hc
+
+/-- column naming is the bijective base-26 numbering: the name of column `c` is `letters c` … -/
+theorem src_col_name (c : Nat) (ca : Bool) :
+    xl_col_to_name c ca = .ok ((if ca then ['$'] else []) ++ letters c) := by
+  rw [xl_col_to_name_eq_model]
+  have h2 : ¬ ((c : Int) < 0) := by omega
+  simp [colName, h2]
+
+/-- … which has no repeats, … -/
+theorem src_col_name_injective (a b : Nat) (ca : Bool) (h : xl_col_to_name a ca = xl_col_to_name b ca) : a = b := by
+  rw [src_col_name, src_col_name] at h
+  have h' := Except.ok.inj h
+  exact letters_injective (List.append_cancel_left h')
+
+/-- … no gaps (every non-empty upper-case word is the name of its index), … -/
+theorem src_col_name_surjective (s : List Char) (hne : s ≠ []) (hu : ∀ ch ∈ s, isUpper ch = true) :
+    ∃ c : Nat, xl_col_to_name c false = .ok s := by
+  have h := C10.name_roundtrip s hne hu
+  refine ⟨(colIndex s).toNat, ?_⟩
+  rw [src_col_name]
+  simp only [if_false, Bool.false_eq_true, List.nil_append]
+  rw [h.2]
+
+/-- … and is strictly order-preserving (A..Z, AA..ZZ, AAA.. = length, then lexicographic). -/
+theorem src_col_strict_mono (a b : Nat) :
+    ∃ sa sb, xl_col_to_name a false = .ok sa ∧ xl_col_to_name b false = .ok sb ∧ (a < b ↔ shortlex sa sb) :=
+  ⟨letters a, letters b, by simpa using src_col_name a false, by simpa using src_col_name b false,
+   letters_strict_mono a b⟩
+
+/-- negative coordinates are rejected with IndexError rather than named. -/
+theorem src_negative_rejected (r c : Int) (ra ca : Bool) (h : r < 0 ∨ c < 0) :
+    xl_rowcol_to_cell r c ra ca = .error .IndexError := by
+  rw [xl_rowcol_to_cell_eq_model]; exact negative_rejected r c ra ca h
+
+theorem src_negative_col_rejected (c : Int) (ca : Bool) (h : c < 0) :
+    xl_col_to_name c ca = .error .IndexError := by
+  rw [xl_col_to_name_eq_model]; exact negative_col_rejected c ca h
+
+/-- a range collapses to a single reference exactly when both corners coincide. -/
+theorem src_range_collapses_iff (r1 c1 r2 c2 : Nat) :
+    (xl_range r1 c1 r2 c2 = xl_rowcol_to_cell r1 c1 false false) ↔ (r1 = r2 ∧ c1 = c2) := by
+  rw [xl_range_eq_model, xl_rowcol_to_cell_eq_model]; exact range_collapses_iff r1 c1 r2 c2
+
+/-- `xl_col_to_offset` inverts `xl_col_to_name`. -/
+theorem src_col_offset_roundtrip (c : Nat) (ca : Bool) (hc : c ≤ 18277) :
+    (xl_col_to_name c ca).bind xl_col_to_offset = .ok (c : Int) := by
+  have h : xl_col_to_offset = colToOffset := funext xl_col_to_offset_eq_model
+  rw [xl_col_to_name_eq_model, h]; exact col_offset_roundtrip c ca hc
+
+/-- the loop of `xl_col_to_name` never runs out of the fuel the translation gives it. -/
+theorem src_col_name_fuel_suffices (c : Int) (ca : Bool) : xl_col_to_name c ca ≠ .error .OutOfFuel := by
+  rw [xl_col_to_name_eq_model]
+  unfold colName
+  split <;> simp
+
+example : xl_rowcol_to_cell 999999 18277 true false = .ok "ZZZ$1000000".toList := by decide +kernel
+example : xl_cell_to_rowcol "$AB$12".toList = .ok (11, 27) := by decide +kernel
+example : xl_range 0 0 0 0 = .ok "A1".toList := by decide +kernel
+example : xl_range 0 0 1 2 = .ok "A1:C2".toList := by decide +kernel
+
+end NumbersModel.Props.C10.Src
